@@ -27,7 +27,7 @@ for p in allp:
         na.append({'property_id': pid, 'reason': 'check not built yet (work in progress, see DESIGN.md section 13)'})
 man = {
     'version': 1,
-    'setup_cmd': 'python3-vt -m compileall -q pyvc contracts bounded checks tools',
+    'setup_cmd': 'python3-vt -m compileall -q pyvc contracts bounded checks tools && sh lemmas/check_lemmas.sh',
     'hooks': {'guard': 'PJPLAN_VERIF', 'enable': 'no hooks needed: contracts are sidecars read next to the AST of /repo/src; the clock is replaced from outside by the native harness (bounded/common.py)',
               'baseline_off_cmd': 'cd /repo && /venv/bin/python -m pytest -ra -q -p no:cacheprovider --timeout=900 --continue-on-collection-errors',
               'source_commits': [], 'add_only': True},
